@@ -1086,3 +1086,79 @@ PROPS.update({
                             "kinds, a domain for every FD operand, integers far from isize limits)",
                             "overflow checks are ON in the harness build (as in the repository's debug test runs)"]},
 })
+
+
+# ----------------------------------------------------------------------------- surface syntax: C13 C14 C15
+
+def as_case(ctx, c, suffix=""):
+    c = dict(c)
+    c["id"] = "%s-%s%s" % (ctx["prop"], c["id"], suffix)
+    return c
+
+
+def plan_c13(ctx):
+    rng = ctx["rng"]
+    for i in range(T(ctx, 350, 3000)):
+        add(ctx, [as_case(ctx, gen.match_program(rng, i))])
+
+
+def plan_c14(ctx):
+    rng = ctx["rng"]
+    for i in range(T(ctx, 300, 2500)):
+        c = gen.grammar_program(rng, i)
+        g = "%s-%s" % (ctx["prop"], c["id"])
+        a = as_case(ctx, c, "-api")
+        s = as_case(ctx, c, "-surf")
+        a["group"] = g
+        s["group"] = g
+        s["backend"] = "surface"
+        s["gcheck"] = "same_bag"
+        add(ctx, [a, s])
+    # lterm!: the written term (ground terms and wildcards)
+    for i in range(T(ctx, 120, 1000)):
+        tg = gen.TermGen(rng, [], compounds=False, syms=True, nums=[0, 1, 2, 7])
+        t = tg.term(rng.randint(1, 3))
+        add(ctx, [{"id": "C14-lt%d" % i, "backend": "surface", "kind": "program", "mode": "query", "qvars": [1],
+                   "body": [["eq", ["var", 1], t]], "lterm": True, "after": 1}])
+
+
+def plan_c15(ctx):
+    rng = ctx["rng"]
+    for i in range(T(ctx, 300, 2500)):
+        mk = gen.shadow_program if i % 2 == 0 else gen.rel_program
+        a = mk(rng, i, True)
+        b = dict(a, names={})      # the alpha-renamed twin: same AST, globally unique names
+        g = "%s-%s" % (ctx["prop"], a["id"])
+        a = as_case(ctx, a, "-shadow")
+        b = as_case(ctx, b, "-unique")
+        a["group"] = g
+        b["group"] = g
+        b["gcheck"] = "same_bag"
+        add(ctx, [a, b])
+
+
+SURF_ASSUME = ["generated programs that compile; programs the macro rejects are not part of any property",
+               "surface programs are printed by tools/surface.py from the case AST (no negative literals, ground `for` "
+               "collections)", "TLC, Json/IOUtils, harness projectors; the pvs crate is rebuilt from /repo's working tree"]
+PROPS.update({
+    "C13": {"plan": plan_c13, "reasons": R_ANSWERS | R_REIFY | {"panic"},
+            "rule": "random match / matche / matcha / matchu expressions: 1-3 arms, 1-2 alternatives per arm over the same "
+                    "names, patterns of depth <= 2 (literals, [], [a,b], [h|t], [_|t], repeated names, compounds, wildcards), "
+                    "empty bodies, bodies over pattern variables and outer variables, pattern variables carrying the NAME of "
+                    "an outer variable; printed as surface syntax, compiled against the working tree, answers compared with "
+                    "the specification's elaboration (Kanren.Elab).  Non-trivial: every case (each has a match).",
+            "nontrivial": lambda c: True, "assumptions": SURF_ASSUME},
+    "C14": {"plan": plan_c14, "reasons": R_ANSWERS | R_REIFY | {"group_bags_differ", "group_outcomes_differ", "panic"},
+            "rule": "random programs over the clause grammar (fresh, ==, !=, true/false, nested conjunctions inside operator "
+                    "bodies, conde, closure, loop with take, library relation calls, literals of the four kinds, nested "
+                    "proper/improper lists, compounds, `_`, 1-3 query variables) run through the macro (surface backend) and "
+                    "through the constructor API, compared with the reference per query variable in declaration order and "
+                    "with each other; lterm!(t) against the written term.",
+            "nontrivial": lambda c: True, "assumptions": SURF_ASSUME},
+    "C15": {"plan": plan_c15, "reasons": R_ANSWERS | {"group_bags_differ", "group_outcomes_differ", "panic"},
+            "rule": "programs with same-named variables in nested and sibling fresh scopes, and recursive relations (dup, pairs, "
+                    "lastof) whose bodies bind fresh and pattern variables named like the caller's variables; each next to its "
+                    "alpha-renamed twin with globally unique names (implementation against implementation) and against the "
+                    "reference, which allocates new variables at every unfolding.",
+            "nontrivial": lambda c: bool(c.get("names")) or "call" in vlib.goal_tags(c), "assumptions": SURF_ASSUME},
+})
